@@ -426,6 +426,35 @@ func TestC14_AssignmentRelayGatingFees(t *testing.T) {
 				checkRelay(t)
 				checkFees(t)
 			},
+			// all validators estimate only the youngest message still waiting for an estimate, so that it is elected while
+			// older ones (possibly of the same sender) still wait
+			"estimateYoungestOnly": func(t *rapid.T) {
+				ch := rapid.SampledFrom(chains).Draw(t, "chain")
+				var need []uint64
+				for _, m := range queueMsgs(ch.RefID) {
+					if m.GetRequireGasEstimation() && m.GetGasEstimate() == 0 {
+						need = append(need, m.GetId())
+					}
+				}
+				if len(need) < 2 {
+					t.Skip("fewer than two messages wait for an estimate")
+				}
+				id := need[len(need)-1]
+				gas := rapid.Uint64Range(21000, 500000).Draw(t, "gas")
+				var txs [][]byte
+				for _, v := range c.Vals {
+					txs = append(txs, c.MustSign(v.Actor, &consensustypes.MsgAddMessageGasEstimates{Metadata: chain.MD(v.Actor), Estimates: []*consensustypes.MsgAddMessageGasEstimates_GasEstimate{
+						{MsgId: id, QueueTypeName: chain.TurnstoneQueue(ch.RefID), Value: gas, EstimatedByAddress: chain.EthAddr(v.EthKeys[ch.RefID]).Hex()}}}))
+				}
+				before := snapshotElig()
+				if _, err := c.Block(txs...); err != nil {
+					t.Fatalf("block: %v", err)
+				}
+				judgeNew(t, before)
+				log = append(log, fmt.Sprintf("estimateYoungestOnly(%s,msg %d)", ch.RefID, id))
+				checkRelay(t)
+				checkFees(t)
+			},
 			"report": func(t *rapid.T) {
 				ch := rapid.SampledFrom(chains).Draw(t, "chain")
 				ms := queueMsgs(ch.RefID)
